@@ -131,6 +131,11 @@ def assertion(B, out):
         only_size = o.get("level") is None and o.get("stack") is None and o.get("size") is not None
         if r1["exc"] is None and r1["ret"] is False and only_size:
             parts.append(("a size-limited expansion returned False although no unexpanded node remains", B.const(len(out["stubs1"]) > 0)))
+        if r1["exc"] is None and r1["ret"] is True and kind in ("bfs", "dfs") and o.get("node") in (None, 0):
+            # an expansion from the root that reports completion has really completed, whatever was expanded before
+            parts += [("expansion after a prefix returned True: " + l, f) for l, f in specs.leaves_are_mintraps(B, out["d1"], require_all_expanded=True)]
+        if r1["exc"] is None and r1["ret"] is True and kind in ("minp", "aseeds") and o.get("node") in (None, 0):
+            parts += [("expansion after a prefix returned True: " + l, f) for l, f in specs.leaves_are_mintraps(B, out["d1"], require_all_expanded=False)]
         return parts
     r1, r2, r3 = out["r1"], out["r2"], out["r3"]
     allowed = {"lim": (None,), "motifs": (None, "RuntimeError"), "cand": (None, "RuntimeError"), "fault": (None, "RuntimeError")}[scn]
@@ -235,6 +240,9 @@ def tasks(tier, seed, selftest=False):
     for pre in PREFIX_OPS:
         for kind in ("bfs", "dfs", "minp", "aseeds", "target"):
             add("U2", "pre:" + pre, kind, 6 if q else 900)
+        for kind in ("bfs", "dfs"):
+            # deep diagrams (independent switches): stubs below already expanded nodes
+            add("P:SW2+SW2+U1", "pre:" + pre, kind, 10 if q else 600)
     for kind in ("seeds", "cands"):
         add("U2", "cand", kind, 25 if q else 900)
         add("U2", "fault", kind, 25 if q else 900)
